@@ -21,6 +21,7 @@ var currentType string
 var mapFields = make(map[string]string)
 var localVars = make(map[string]string)
 var formalParameters = make(map[string]string)
+var localVarScopes []map[string]string
 
 var currentClzExtend = ""
 var currentMethod core_domain.CodeFunction
@@ -48,6 +49,7 @@ func NewJavaFullListener(nodes map[string]core_domain.CodeDataStruct, file strin
 	mapFields = make(map[string]string)
 	localVars = make(map[string]string)
 	formalParameters = make(map[string]string)
+	localVarScopes = nil
 	creatorMethodMap = make(map[string]core_domain.CodeFunction)
 	currentType = ""
 	currentCreatorNode = *core_domain.NewDataStruct()
@@ -263,6 +265,25 @@ func (s *JavaFullListener) EnterLocalVariableDeclaration(ctx *parser.LocalVariab
 		variableName := declarator.(*parser.VariableDeclaratorContext).VariableDeclaratorId().GetText()
 		localVars[variableName] = typ
 	}
+}
+
+// A local variable is visible until the end of the block that declares it: remember the
+// table at block entry and put it back at block exit, so that an outer declaration (or a
+// field) of the same name is seen again afterwards.
+func (s *JavaFullListener) EnterBlock(ctx *parser.BlockContext) {
+	saved := make(map[string]string, len(localVars))
+	for name, typ := range localVars {
+		saved[name] = typ
+	}
+	localVarScopes = append(localVarScopes, saved)
+}
+
+func (s *JavaFullListener) ExitBlock(ctx *parser.BlockContext) {
+	if len(localVarScopes) == 0 {
+		return
+	}
+	localVars = localVarScopes[len(localVarScopes)-1]
+	localVarScopes = localVarScopes[:len(localVarScopes)-1]
 }
 
 func (s *JavaFullListener) EnterAnnotation(ctx *parser.AnnotationContext) {
